@@ -597,8 +597,8 @@ func awaitedResultChan(p *Prog, f *Fn, obj types.Object) (bool, string) {
 	inspectShallow(poster.Body(), func(x ast.Node) bool {
 		if as, ok := x.(*ast.AssignStmt); ok && len(as.Lhs) == 1 && len(as.Rhs) == 1 {
 			if id, ok := as.Lhs[0].(*ast.Ident); ok && pinfo.Defs[id] == obj {
-				if c, ok := as.Rhs[0].(*ast.CallExpr); ok && isBuiltin(pinfo, c, "make") && len(c.Args) == 1 {
-					made = true
+				if c, ok := as.Rhs[0].(*ast.CallExpr); ok && isBuiltin(pinfo, c, "make") && len(c.Args) >= 1 {
+					made = true // unbuffered or buffered: the poster waits for it either way
 				}
 			}
 		}
